@@ -20,7 +20,33 @@ pub struct Scn {
 
 pub struct C20;
 
+/// A single LARGE object (source blocks of hundreds of KiB, several blocks, interleaving): what a stream source
+/// reads ahead must not change the packet order.
+fn gen_large(rng: &mut Rng) -> Scn {
+    let mut spec = SenderSpec::basic(OtiSpec::new(Scheme::NoCode, 1400, 64, 0, true));
+    spec.interleave = rng.range(2, 4) as u8;
+    spec.queues = vec![(0, 1)];
+    let b = *rng.pick(&[200u32, 400]);
+    let blocks = rng.range(2, 3) as usize;
+    let len = blocks * b as usize * 1400 - rng.range(0, 3000) as usize;
+    let mut o = ObjectSpec::basic(len, rng.next_u64(), 0);
+    o.kind = ContentKind::Counter;
+    o.md5 = rng.chance(0.5);
+    o.oti = Some(OtiSpec::new(Scheme::NoCode, 1400, b, 0, rng.chance(0.5)));
+    let ops = vec![TimedOp { when: When::AtUs(0), op: Op::Add(0) }, TimedOp { when: When::AtUs(0), op: Op::Publish }];
+    let poll = PollSpec { start_us: 0, gap: GapSpec::FixedUs(1000), burst: None, max_polls: 100, max_pkts: 4000, idle_polls_after_done: 1 };
+    let variant = match rng.below(3) {
+        0 => SourceSpec::Stream(ReadSched::Full),
+        1 => SourceSpec::Stream(ReadSched::BufLike(8192)),
+        _ => SourceSpec::File,
+    };
+    Scn { sender: SenderScn { spec, objects: vec![o], ops, poll, snapshots: false }, variants: vec![variant] }
+}
+
 pub fn gen(rng: &mut Rng, tier: Tier) -> Scn {
+    if rng.chance(0.004) {
+        return gen_large(rng);
+    }
     let soti = gen_sender_oti(rng, None);
     let mut spec = gen_sender_spec(rng, soti);
     spec.fdt_carousel = CarouselSpec::DelayMs(1000);
